@@ -21,7 +21,7 @@ GAPS = {
 COMMON_ASSUME = [
     "Lean 4.33 kernel; axioms of every property theorem ⊆ {propext, Classical.choice, Quot.sound} (audited on this run)",
     "the hand-written models (M2, M3, M4a, M4b, M5) represent the code: validated on this run by the correspondence / trace acceptance counted in coverage.runs, and by the pinned structural facts (Expect/*.lean) compared with the facts gofacts extracted from the working tree",
-    "go2lean, gofacts, rewrite + vshim (cooperative scheduler, virtual clock) are trusted tools",
+    "go2lean, gofacts, go2deep (+ the interpreter Deep/Interp.lean), rewrite + vshim (cooperative scheduler, virtual clock) are trusted tools",
 ]
 ATOMIC_MAP = "premise of the cache-level concurrent model M5: the underlying Map/MapOf behaves atomically (that is C03/C04; the substitution of a linearizable object for an atomic one is not mechanised)"
 ASSUME = {
@@ -53,6 +53,9 @@ EXPECT = {
 
 # cache-level properties are proved over an *atomic* map (M5); that premise is M4a/M4b, i.e. the xsync protocol
 # skeletons: a change there breaks the premise of these properties too
+# the cache-layer models M2 are tied to the source text by the deep embedding: interpreter(generated syntax) = M2
+DEEP = {p: ["CacheVerif.Proofs.DeepCache", "CacheVerif.Proofs.DeepCacheOf"] for p in ("C01", "C05", "C06", "C07", "C08", "C09", "C12", "C15")}
+
 PREMISE = {p: E("Load", "DoCompute", "Resize", "Range", "Lock") for p in ("C01", "C02", "C05", "C06", "C07", "C08", "C09", "C12", "C15")}
 
 
@@ -76,6 +79,9 @@ def common(run, modules):
         if em not in EXPECT.get(run.pid, []):
             eok, elog = R.lake_build(run, [em])
             run.oblige("premise (atomic map of the cache-level model = xsync protocol skeleton): lake build %s" % em, eok, elog)
+    for dm in DEEP.get(run.pid, []):
+        dok_, dlog_ = R.lake_build(run, [dm])
+        run.oblige("lake build %s (for every state and call, the interpreter of the Go subset run on the method bodies printed from the working tree computes exactly the hand-written model's step)" % dm, dok_, dlog_)
     ok, log = R.lake_build(run, modules)
     run.oblige("lake build %s (all proof obligations of the property's modules)" % " ".join(modules), ok, log)
     if ok:
